@@ -41,7 +41,8 @@ Proof. exact header_parses_back. Qed.
 
 (* T3 (bytes intact): for ALL chunkings of header ++ payload - the header in any form a receiver must accept,
    split anywhere, or in one chunk with the payload -, all interleavings of arrivals and polls, poll_data or
-   AsyncRead with any buffer of at least one byte: after a final poll the application has seen exactly
+   futures / tokio AsyncRead with any buffer of at least one byte ([mode_ok m]), for bidirectional streams read
+   directly or through the receive half of split() ([split]): after a final poll the application has seen exactly
    [payload], in order, attached to session [s], then the stream's own ending (FIN, RESET code, or still open) *)
 Theorem C19_uni_bytes_intact :
   forall m h tl sl s payload, mode_ok m -> h_ok h ->
@@ -50,10 +51,10 @@ Theorem C19_uni_bytes_intact :
     uni_seen (uni_run true m (h ++ [Poll])) = SeenStream s payload (end_of (arrived_term h)).
 Proof. exact uni_bytes_intact. Qed.
 Theorem C19_bidi_bytes_intact :
-  forall m h tl sl s payload, mode_ok m -> h_ok h ->
+  forall split m h tl sl s payload, mode_ok m -> h_ok h ->
     valid_form tl WT_BIDI_SIGNAL -> valid_form sl s ->
     arrived_bytes h = rfc_vi_enc tl WT_BIDI_SIGNAL ++ rfc_vi_enc sl s ++ payload ->
-    bidi_seen (bidi_run m (h ++ [Poll])) = SeenStream s payload (end_of (arrived_term h)).
+    bidi_seen (bidi_run split m (h ++ [Poll])) = SeenStream s payload (end_of (arrived_term h)).
 Proof. exact bidi_bytes_intact. Qed.
 
 (* T3': at EVERY moment of EVERY history (no final poll needed) what has been delivered is a prefix of the
@@ -68,8 +69,8 @@ Theorem C19_uni_prefix_safe :
     end.
 Proof. exact uni_prefix_safe. Qed.
 Theorem C19_bidi_prefix_safe :
-  forall m h, mode_ok m -> h_ok h ->
-    match bidi_seen (bidi_run m h) with
+  forall split m h, mode_ok m -> h_ok h ->
+    match bidi_seen (bidi_run split m h) with
     | SeenStream i d _ => exists rest, wt_parse WT_BIDI_SIGNAL (arrived_bytes h) = WtStream i (d ++ rest)
     | SeenBad => False
     | _ => True
@@ -88,8 +89,8 @@ Theorem C19_uni_refines_spec :
     end.
 Proof. exact uni_run_spec. Qed.
 Theorem C19_bidi_refines_spec :
-  forall m h, mode_ok m -> h_ok h ->
-    let st := bidi_run m (h ++ [Poll]) in
+  forall split m h, mode_ok m -> h_ok h ->
+    let st := bidi_run split m (h ++ [Poll]) in
     match wt_expect_bidi (arrived_bytes h) (end_of (arrived_term h)) with
     | ObsStream s p e => bidi_seen st = SeenStream s p e
     | ObsNothing => bidi_seen st = SeenNothing
@@ -117,10 +118,23 @@ Theorem C19_uni_surfaced_at_next_poll :
     exists e, uni_seen (uni_run true m (h ++ [Poll])) = SeenStream s p e.
 Proof. exact uni_liveness. Qed.
 Theorem C19_bidi_surfaced_at_next_poll :
-  forall m h s p, mode_ok m -> h_ok h ->
+  forall split m h s p, mode_ok m -> h_ok h ->
     wt_parse WT_BIDI_SIGNAL (arrived_bytes h) = WtStream s p ->
-    exists e, bidi_seen (bidi_run m (h ++ [Poll])) = SeenStream s p e.
+    exists e, bidi_seen (bidi_run split m (h ++ [Poll])) = SeenStream s p e.
 Proof. exact bidi_liveness. Qed.
+
+(* split(): the receive half keeps every buffered byte (payload that arrived with the header lives there), the
+   send half starts with an empty buffer; both keep the end-of-stream flag *)
+Theorem C19_split_keeps_payload :
+  forall s, r_buf (snd (brs_split s)) = r_buf s /\ r_buf (fst (brs_split s)) = [] /\
+            r_eos (snd (brs_split s)) = r_eos s /\ r_eos (fst (brs_split s)) = r_eos s.
+Proof. exact split_keeps_payload. Qed.
+
+(* the two hand-written AsyncRead impls (futures, tokio) are the same function of (capacity, queue, stream):
+   buffered bytes are handed out before the transport is polled, at most `capacity` bytes per call *)
+Theorem C19_tokio_read_is_async_read :
+  forall l q s, brs_tokio_read l q s = brs_async_read l q s.
+Proof. exact brs_tokio_is_async. Qed.
 
 (* the generated facts every proof above rests on (a changed decision point breaks this first) *)
 Theorem C19_generated_facts :
@@ -132,7 +146,9 @@ Theorem C19_generated_facts :
   wt_buffer_first = true /\ wt_memo_reset = true /\ wt_memo_min = 1 /\
   wt_second_varint_types = [wt_st_push; WT_UNI_TYPE] /\
   wt_into_inner_keeps_buffer = true /\ wt_gate = 1 /\
-  wt_fallthrough_is_noop = true /\ wt_end_of_stream_removes = true /\ wt_session_from_connect_stream = true.
+  wt_fallthrough_is_noop = true /\ wt_end_of_stream_removes = true /\ wt_session_from_connect_stream = true /\
+  wt_fut_guard = 1 /\ wt_tokio_guard = 1 /\ wt_fut_take_capacity = true /\ wt_tokio_take_capacity = true /\
+  wt_split_buf_to_recv = true.
 Proof. exact gen_facts. Qed.
 
 (* non-vacuity *)
@@ -158,8 +174,15 @@ Proof.
 Qed.
 Example C19_bidi_inhabited :
   let h := [Arrive (Chunk [64; 65; 8; 1; 2]); Arrive Fin] in
-  h_ok h /\ bidi_seen (bidi_run ModeData (h ++ [Poll])) = SeenStream 8 [1; 2] WtFin.
-Proof. cbv zeta. split; [cbn; repeat split; try discriminate; repeat constructor|vm_compute; reflexivity]. Qed.
+  h_ok h /\ bidi_seen (bidi_run false ModeData (h ++ [Poll])) = SeenStream 8 [1; 2] WtFin /\
+  bidi_seen (bidi_run true (ModeTokio 4) (h ++ [Poll])) = SeenStream 8 [1; 2] WtFin.
+Proof.
+  cbv zeta. split; [cbn; repeat split; try discriminate; repeat constructor|split; vm_compute; reflexivity].
+Qed.
+Example C19_tokio_inhabited :
+  uni_seen (uni_run true (ModeTokio 8) [Arrive (Chunk [64; 84; 8; 170; 187; 204]); Arrive Fin; Poll])
+    = SeenStream 8 [170; 187; 204] WtFin.
+Proof. vm_compute. reflexivity. Qed.
 Example C19_disabled_inhabited :
   uni_seen (uni_run false ModeData [Arrive (Chunk [64; 84; 8; 1; 2]); Arrive Fin; Poll]) = SeenNothing.
 Proof. vm_compute. reflexivity. Qed.
@@ -182,4 +205,6 @@ Print Assumptions C19_bidi_refines_spec.
 Print Assumptions C19_uni_surfaced_iff_enabled.
 Print Assumptions C19_uni_surfaced_at_next_poll.
 Print Assumptions C19_bidi_surfaced_at_next_poll.
+Print Assumptions C19_split_keeps_payload.
+Print Assumptions C19_tokio_read_is_async_read.
 Print Assumptions C19_generated_facts.
